@@ -123,6 +123,17 @@ func signedRecord(rng *rand.Rand) *enr.Record {
 	return &rec
 }
 
+func signedRecordFor(rng *rand.Rand, key *ecdsa.PrivateKey) *enr.Record {
+	var rec enr.Record
+	rec.SetSeq(uint64(1 + rng.Intn(1000)))
+	rec.Set(enr.IPv4{byte(1 + rng.Intn(200)), byte(rng.Intn(256)), 1, 2})
+	rec.Set(enr.UDP(rng.Intn(65536)))
+	if err := enode.SignV4(&rec, key); err != nil {
+		panic(err)
+	}
+	return &rec
+}
+
 func randPacket(rng *rand.Rand) v5wire.Packet {
 	switch rng.Intn(6) {
 	case 0:
@@ -446,7 +457,7 @@ func (s *wireSession) step() {
 	rng := s.rng
 	i, j := s.pair()
 	X, Y := s.n[i], s.n[j]
-	switch op := rng.Intn(22); {
+	switch op := rng.Intn(23); {
 	case op < 6: // plain message
 		p := randPacket(rng)
 		enc, _, err := X.encode(Y, p, nil)
@@ -628,6 +639,8 @@ func (s *wireSession) step() {
 		s.r.Count("codec_resets", 1)
 	case op == 20:
 		s.clock.Run(time.Duration(rng.Intn(3000)) * time.Millisecond)
+	case op == 21:
+		s.craftedStep(i, j)
 	default: // garbage
 		var b []byte
 		if rng.Intn(2) == 0 {
